@@ -101,7 +101,8 @@ def generate(seed, tier):
             return res
     # build, isolating generated modules that do not compile
     skip = set()
-    for attempt in range(8):
+    iskip = set()
+    for attempt in range(10):
         rc, out = cargo_build("zvc")
         if rc == 0:
             break
@@ -111,7 +112,26 @@ def generate(seed, tier):
             where = "generated" if m.group(2) == "m" else "exercise"
             if idx not in bad or (where == "generated" and bad[idx]["where"] == "exercise"):
                 bad[idx] = {"where": where, "error": m.group(1), "at": f"{m.group(2)}{idx}.rs:{m.group(4)}"}
+        # derive corpus: one file, modules located by line
+        ibad = {}
+        try:
+            ranges = json.load(open(os.path.join(ZVC_SRC, "gen_intro.lines.json")))
+        except OSError:
+            ranges = []
+        for m in re.finditer(r"^(error[^\n]*)\n\s*--> zvc/src/gen_intro\.rs:(\d+):(\d+)", out, re.M):
+            ln = int(m.group(2))
+            for r in ranges:
+                if r["start"] <= ln <= r["end"] and r["idx"] not in ibad:
+                    ibad[r["idx"]] = {"error": m.group(1), "at": f"gen_intro.rs:{ln}", "decl": r["decl"]}
+        inew = set(ibad) - iskip
+        if inew:
+            for idx in inew:
+                res["in_failed"][idx] = ibad[idx]
+            iskip |= inew
+            subprocess.run([py, os.path.join(CORPUS, "gen_intro.py"), str(seed), str(n["intro"]), ZVC_SRC, ",".join(str(x) for x in sorted(iskip))], check=True)
         new = set(bad) - skip
+        if not new and inew:
+            continue
         if not new:
             res["ok"] = False
             res["notes"].append("corpus crate zvc does not build (not attributable to a generated module):\n" + out[-3000:])
